@@ -61,6 +61,15 @@ def success_case(asm, acc, case):
             open(os.path.join(d, 'lib%d.asm' % k), 'w').write('LIBK%d = %d\n' % (k, 40 + k))
             lines = ['include lib%d.asm' % k] + lines + ['db LIBK%d' % k, 'align 2']
             incs.append(d)
+        if case['ninc'] == 2 and case['idx'] % 2:
+            # both -i directories hold `shared.asm` with other contents; directory names are not in alphabetical order
+            d2 = os.path.join(root, 'aaa_second')
+            os.makedirs(d2)
+            os.rename(incs[1], os.path.join(root, 'zzz_first'))
+            incs = [os.path.join(root, 'zzz_first'), incs[0], d2]
+            open(os.path.join(incs[0], 'shared.asm'), 'w').write('SHARED_ID = 17\n')
+            open(os.path.join(d2, 'shared.asm'), 'w').write('SHARED_ID = 34\nnop\n')
+            lines = ['include shared.asm'] + lines + ['db SHARED_ID', 'align 2']
         if case['defs']:
             lines = ['include GD32VF103.asm'] + lines
         srcdir = os.path.join(root, 'src')
